@@ -51,8 +51,9 @@ def n_free(e):
     return e
 
 
-STYLES = [{"sel": s, "lit": l, "ws": w, "paren": p, "cont": c}
-          for s in ("auto", "bracket", "backtick", "pointer") for l in ("auto", "dq", "raw", "bare") for w in ("", "wide", "tight") for p in (0, 1, 2) for c in (False, True)]
+STYLES = [{"sel": s, "lit": l, "ws": w, "paren": p, "cont": c, "dneg": dn}
+          for s in ("auto", "bracket", "backtick", "pointer") for l in ("auto", "dq", "raw", "bare") for w in ("", "wide", "tight") for p in (0, 1, 2) for c in (False, True)
+          for dn in (0, 1, 2) if not (dn and p == 2)]
 
 ALPHA = ["a", "0", "/", "~", "\\", '"', "`", " ", "\n", "\r", "\t", "<0>", "<L>", ".", "-", "_", "1"]
 
@@ -63,7 +64,7 @@ def main():
     quick = chk.tier == "quick"
     wd = vlib.sub("c16")
     trees = small_trees() + [pegrun.random_tree(rnd, rnd.randint(1, 3)) for _ in range(40 if quick else 600)]
-    styles = STYLES if not quick else ([s for s in STYLES if sum([s["sel"] != "auto", s["lit"] != "auto", s["ws"] != "", s["paren"] != 0, s["cont"]]) <= 1]
+    styles = STYLES if not quick else ([s for s in STYLES if sum([s["sel"] != "auto", s["lit"] != "auto", s["ws"] != "", s["paren"] != 0, s["cont"], s["dneg"] != 0]) <= 1]
                                        + rnd.sample(STYLES, 24))
     with open(os.path.join(wd, "trees.json"), "w") as fh:
         json.dump(trees, fh)
